@@ -196,14 +196,19 @@ def gen_contain(rng):
                ("l", "proj/dirlink_out", "../outside"), ("l", "proj/dirlink_in", "lib"),
                ("l", "proj/abs_out.etk", "/outside/secret.etk"), ("l", "proj/lib/up.etk", "../../outside/secret.etk"),
                ("l", "realroot_link", "proj"), ("l", "proj/loop", "loop"),
-               ("f", "proj/lib/esc.etk", b'%include("../../outside/secret.etk")\n')]
+               ("f", "proj/lib/esc.etk", b'%include("../../outside/secret.etk")\n'),
+               # targets that pass the containment check but cannot be read / decoded: not UTF-8, not hex, odd length
+               ("f", "proj/lib/bin.hex", b"\xff\xfe\x00"), ("f", "proj/lib/bin.etk", b"pc\n\xc3\x28\n"),
+               ("f", "proj/lib/bad.hex", b"5b zz"), ("f", "proj/lib/odd.hex", b" 5b5\n"), ("f", "proj/lib/ws.hex", b"\n\t 5b5b \r\n")]
     targets = ["lib/ok.etk", "lib/link_in.etk", "dirlink_in/ok.etk", "lib/deep/x.etk", "lib/../lib/ok.etk",
                "link_out.etk", "dirlink_out/secret.etk", "abs_out.etk", "lib/up.etk", "../outside/secret.etk",
                "lib/../../outside/secret.etk", "@T@/outside/secret.etk", "@T@/proj/lib/ok.etk", "lib/esc.etk",
                "missing.etk", "loop", "lib", "../proj/lib/ok.etk", "dirlink_in/../../outside/secret.etk",
-               "../proj-private/secret.etk", "@T@/proj-private/secret.etk", "sib_link.etk", "lib/../../proj-private/secret.etk"]
+               "../proj-private/secret.etk", "@T@/proj-private/secret.etk", "sib_link.etk", "lib/../../proj-private/secret.etk",
+               "lib/bin.etk"]
     hex_targets = ["lib/ok.hex", "../outside/secret.hex", "dirlink_out/secret.hex", "@T@/outside/secret.hex", "dirlink_in/ok.hex",
-                   "../proj2/secret.hex", "@T@/proj2/secret.hex"]
+                   "../proj2/secret.hex", "@T@/proj2/secret.hex", "lib", "missing.hex", "lib/bin.hex", "lib/bad.hex", "lib/odd.hex",
+                   "lib/ws.hex", "loop"]
     # nested sources with directives of their own: paths in them are relative to THEIR directory, and a plain
     # descending path can still leave the root through a symlinked file or directory next to the nested file
     entries += [("l", "proj/lib/vendor", "../../outside"), ("l", "proj/lib/deep/out.etk", "../../../outside/secret.etk"),
